@@ -77,7 +77,7 @@ def run_suite(V, wd, programs, configs, prop, checks=("link", "boundary", "resul
     by_name = {p["name"]: p for p in programs}
     keep = None
     if trace:
-        keep = ["enq", "send", "recv", "probe", "worker", "exec_start", "exec_end", "lock", "unlock",
+        keep = ["enq", "send", "recv", "probe", "start_out", "worker", "exec_start", "exec_end", "lock", "unlock",
                 "wait_ret", "set_state", "barrier", "leader", "state_read", "cond"]
     jobs = make_jobs(programs, configs, trace=trace, perturb_us=perturb_us, keep=keep,
                      base_seed=seed(), hang_ms=hang_ms)
